@@ -809,6 +809,22 @@ def r13_5(ctx):
     alt = len(rets) == 1 and norm(rets[0].value) in ("cell_len(self.text) if not self.is_control else 0",)
     ctx.check(ok or alt, cl.fq, norm(rets[0]) if rets else "?", cl.where, "segment cell length = cell_len(text), 0 for control segments",
               "Segment.cell_length is no longer `0 if is_control else cell_len(text)`")
+    # the crop ends the line: once the segment that crosses the limit has been cut to the remaining cells, nothing more may be
+    # appended - every path from the set_cell_size(..) statement leaves the loop (break / return) before the loop takes another
+    # segment; a loop that goes on appends the following segments to a line that is already full
+    for lp in [x for x in walk_local(f.node) if isinstance(x, ast.For)]:
+        crops = [nd for nd in g.stmt_nodes() if nd.kind == "stmt" and nd.stmt is not None and any(isinstance(c_, ast.Call) and norm(c_.func).endswith("set_cell_size") for c_ in ast.walk(nd.stmt))
+                 and any(nd.stmt is y for y in ast.walk(lp))]
+        if not crops:
+            continue
+        heads = set(g.nodes_of(lp))
+        leaves = {nd.id for nd in g.stmt_nodes() if nd.kind == "stmt" and isinstance(nd.stmt, (ast.Break, ast.Return)) and any(nd.stmt is y for y in ast.walk(lp))}
+        for nd in crops:
+            back = bool(heads & g.reach([nd.id], avoid=leaves)) if leaves else True
+            # (an update that marks the line as full - line_length = length - makes further appends impossible as well)
+            full = any(isinstance(x.stmt, ast.Assign) and norm(x.stmt.targets[0]) == "line_length" and norm(x.stmt.value) == length_p for x in g.stmt_nodes() if x.kind == "stmt" and x.stmt is not None and any(x.stmt is y for y in ast.walk(lp)))
+            ctx.check(not back or full, f.fq, short(nd.stmt), f"{f.module.relpath}:{nd.lineno}", "the crop ends the line",
+                      f"after `{short(nd.stmt)}` the loop goes on with the next segment: the line is already `{length_p}` cells long, and every following segment narrower than the limit is appended to it - the cropped line comes out wider than requested")
 
 
 def r13_8(ctx):
